@@ -1502,8 +1502,8 @@ func (x *relayRun) flood() (sent, arrived, echoed int) {
 	x.dns.setHoldAll(x.c.Client == "direct")
 	stopRel := make(chan struct{})
 	var relWG sync.WaitGroup
+	rr := x.r.Fork(77) // forked before the goroutine starts: x.r itself stays with this goroutine
 	relWG.Go(func() {
-		rr := x.r.Fork(77)
 		var held []string
 		for {
 			select {
@@ -1702,7 +1702,7 @@ func evalRelay(cases []RelayCase, dns *scriptDNS, shared bool, o *common.Options
 			return fmt.Errorf("udprelay %s>%s/%s: %w", c.Server, c.Client, c.Batch, err)
 		}
 		rep.Case(relaySig(c), res.twoWay >= 2)
-		rep.Count(fmt.Sprintf("udprelay:%s>%s/%s", c.Server, c.Client, c.Batch))
+		rep.Count(fmt.Sprintf("udprelay:%s>%s/%s%s", c.Server, c.Client, c.Batch, map[string]string{"": "", "wild4": "+wild4", "dual": "+dual"}[c.Family]))
 		if c.Flood > 0 && c.Server != "direct" {
 			rep.Count("udprelay:flood-runs")
 			rep.Distribution["udprelay:flood-sent"] += res.floodSent
@@ -1750,6 +1750,10 @@ func relayEngine(r *common.Rng, dns *scriptDNS, shared bool, o *common.Options, 
 	}
 	if o.Search {
 		limit = 3 * time.Minute
+	}
+	if os.Getenv("C11_RACE_CHILD") != "" {
+		limit = 70 * time.Second // -race child: the whole item is budgeted to 5 minutes including the build
+		n = 200
 	}
 	for i := 0; i < n; i++ {
 		if time.Since(t0) > limit {
